@@ -33,6 +33,8 @@ def pick(value, rnd, variant=None):
     return value[variant % len(value)] if variant is not None else rnd.choice(value)
 
 
+ONE_LINERS = ["[feeds", "network.cache_size =", 'style.colors.primary = "#A4f59b', 'feeds.x = ["a", ', "[", "x = {", 'media.hook = ["']
+
 # tables nobody knows: with a key of their own, without any, below a known table, below a known key path, written inline
 UNKNOWN_TABLES = [["[nonsense]", "x = 1"], ["[bogus]"], ["[network.proxy]"], ["[style.colors.dark]"], ["fonts = {}"], ["[networks.a]", "[networks.b]"],
                   ["[[things]]", "x = 1"], ["[media.player]", "name = 1"]]
@@ -43,6 +45,9 @@ def toml_for(v, rnd):
         return None
     if v["shape"] == "empty_file":
         return ""
+    if v["shape"] == "syntax_error" and v.get("variant") is not None and v["variant"] >= 4:
+        # a file that is one line breaking off unfinished, without a line break at its end
+        return ONE_LINERS[(v["variant"] - 4) % len(ONE_LINERS)]
     lines = []
     if v["hook"] != "absent":
         lines += ["[media]", pick(VALUES["hook"][v["hook"]], rnd, v.get("variant"))]
@@ -136,7 +141,8 @@ def run(ctx):
         chosen = core + rest[:700]
     for field, classes in (("hook", ["empty"] + ["blank_program"] * 4), ("cache", ["zero", "negative", "one", "huge"]), ("preload", ["negative", "zero", "huge"]),
                            ("timeout", ["negative", "zero", "huge"] + ["fractional"] * 3 + ["special"] * 6),
-                           ("colour", ["empty", "short", "no_hash", "non_hex", "signed", "wrong_type"]), ("shape", ["unknown_table"] * len(UNKNOWN_TABLES))):
+                           ("colour", ["empty", "short", "no_hash", "non_hex", "signed", "wrong_type"]), ("shape", ["unknown_table"] * len(UNKNOWN_TABLES)),
+                           ("shape", ["syntax_error"] * (4 + len(ONE_LINERS)))):
         for k, c in enumerate(classes):
             base = {"hook": "with_args", "cache": "positive", "preload": "positive", "timeout": "positive", "colour": "valid", "shape": "ok"}
             base[field] = c
